@@ -363,6 +363,13 @@ impl SignatureConfig {
             self.version(),
             signer.version()
         );
+        ensure!(
+            matches!(
+                self.typ,
+                SignatureType::SubkeyBinding | SignatureType::SubkeyRevocation
+            ),
+            "Expected subkey binding or revocation signature"
+        );
         debug!("signing subkey binding: {self:#?} - {signer:#?} - {signee:#?}");
 
         let mut hasher = self.hash_alg.new_hasher()?;
@@ -408,6 +415,10 @@ impl SignatureConfig {
             "signature version {:?} not allowed for signer key version {:?}",
             self.version(),
             signer.version()
+        );
+        ensure!(
+            self.typ == SignatureType::KeyBinding,
+            "Expected primary key binding signature"
         );
         debug!("signing primary key binding: {self:#?} - {signer:#?} - {signee:#?}");
 
